@@ -4,6 +4,9 @@ import (
 	"encoding/json"
 	"fmt"
 	"math/rand"
+	"net/http"
+	"net/http/httptest"
+	"net/url"
 	"strings"
 	"sync"
 
@@ -181,6 +184,10 @@ func matchRunTable(st *matchState, t matchTable) {
 		r      *rux.Router
 		routes []*rux.Route
 		passes int
+		// what the handler of the selected route saw (served pass)
+		seenRoute  int
+		seenParams map[string]string
+		seenCount  int
 	}
 	mk := func(name string, passes int, opts ...func(*rux.Router)) *built {
 		b := &built{name: name, passes: passes}
@@ -198,7 +205,22 @@ func matchRunTable(st *matchState, t matchTable) {
 					}
 				}()
 				tag := fmt.Sprintf("r%d", i+1)
-				b.routes = append(b.routes, b.r.AddNamed(tag, st.hdr.Pool[e.P-1], nopHandler, e.Ms...))
+				idx := i + 1
+				b.routes = append(b.routes, b.r.AddNamed(tag, st.hdr.Pool[e.P-1], func(c *rux.Context) {
+					if tp := c.Req.Header.Get("X-Redisp-Path"); tp != "" {
+						// internal redirect: rewrite the request and dispatch it again on the same context
+						c.Req.Header.Del("X-Redisp-Path")
+						c.Req.Method = c.Req.Header.Get("X-Redisp-Method")
+						c.Req.URL.Path = tp
+						c.Router().HandleContext(c)
+						return
+					}
+					b.seenRoute, b.seenCount = idx, b.seenCount+1
+					b.seenParams = map[string]string{}
+					for k, v := range c.Params {
+						b.seenParams[k] = v
+					}
+				}, e.Ms...))
 			}()
 		}
 		return b
@@ -288,8 +310,58 @@ func matchRunTable(st *matchState, t matchTable) {
 			}
 		}
 	}
+	// served pass (C02 observes Context.Params inside handlers): every cell that selects a route is requested through
+	// ServeHTTP, directly and as the target of an internal redirect (Router.HandleContext) issued by the handler of
+	// the previously served cell; the handler of the selected route must see exactly the parameters of ITS match
+	served := 0
+	for _, b := range []*built{mk("served-plain", 1), mk("served-cache", 1, rux.CachingWithNum(3))} {
+		prevM, prevPath := "", ""
+		for _, m := range st.hdr.Methods {
+			if m == "CONNECT" {
+				continue
+			}
+			for _, h := range t.Hits[m] {
+				q, want := h[0], h[1]
+				if want <= 0 || q >= len(st.paths) {
+					continue
+				}
+				path := st.paths[q]
+				allowed := st.mat[t.T[want-1].P][q]
+				for _, via := range []string{"direct", "redispatch"} {
+					if via == "redispatch" && prevPath == "" {
+						continue
+					}
+					req := &http.Request{Method: m, URL: &url.URL{Path: path}, Header: http.Header{}, Proto: "HTTP/1.1"}
+					if via == "redispatch" {
+						req = &http.Request{Method: prevM, URL: &url.URL{Path: prevPath}, Proto: "HTTP/1.1",
+							Header: http.Header{"X-Redisp-Path": {path}, "X-Redisp-Method": {m}}}
+					}
+					b.seenRoute, b.seenParams, b.seenCount = 0, nil, 0
+					panicked := any(nil)
+					func() {
+						defer func() { panicked = recover() }()
+						b.r.ServeHTTP(httptest.NewRecorder(), req)
+					}()
+					served++
+					okp := false
+					for _, bnd := range allowed {
+						okp = okp || paramsEqual(rux.Params(b.seenParams), bnd)
+					}
+					if panicked != nil || b.seenRoute != want || b.seenCount != 1 || !okp {
+						st.report(map[string]any{"kind": "params", "aspect": "params", "table": texts, "method": m, "path": path,
+							"router": b.name, "via": via, "got": b.seenParams, "allowed": allowed,
+							"what": fmt.Sprintf("%s %s served by %v (%s, %s%s): the handler of route #%d ran %d time(s) with params %v (panic %v); expected route #%d %s with one of %v",
+								m, path, texts, b.name, via, map[bool]string{true: " from " + prevM + " " + prevPath, false: ""}[via == "redispatch"],
+								b.seenRoute, b.seenCount, b.seenParams, panicked, want, texts[want-1], allowed)}, caseDoc)
+					}
+				}
+				prevM, prevPath = m, path
+			}
+		}
+	}
 	st.mu.Lock()
-	st.sum.Compared += compared
+	st.sum.Compared += compared + served
+	st.sum.addInfo("served", served)
 	st.sum.addInfo("cells", cells/2)
 	st.mu.Unlock()
 }
